@@ -51,6 +51,7 @@ static int one(int strict, int deliv)
 		char *buf = mc_guard_buf(TL + 1);
 		memcpy(buf, T, TL);
 		buf[TL] = 0;
+		errno = mc_errno_pre;
 		obj = json_tokener_parse_ex(tok, buf, (int)TL + 1);
 		err = json_tokener_get_error(tok);
 		end = json_tokener_get_parse_end(tok);
@@ -59,6 +60,7 @@ static int one(int strict, int deliv)
 	{
 		char *buf = mc_guard_buf(TL);
 		memcpy(buf, T, TL);
+		errno = mc_errno_pre;
 		obj = json_tokener_parse_ex(tok, buf, (int)TL);
 		err = json_tokener_get_error(tok);
 		end = json_tokener_get_parse_end(tok);
